@@ -39,7 +39,7 @@ def gen_cases(rng, tier, drift):
             j = rng.randint(0, L - pos)
             chain.append(j)
             pos += j
-        cases.append(dict(kind="sched", cfg=cfg, k=k, chain=chain, choices=[rng.randint(0, 5) for _ in range(8 * L + 40)]))
+        cases.append(dict(kind="sched", cfg=cfg, k=k, chain=chain, choices=[(100 if rng.random() < 0.12 else rng.randint(0, 5)) for _ in range(8 * L + 40)]))
     for _ in range(n_f):
         cfg = si.gen_cfg(rng)
         r = rng.random()
